@@ -338,6 +338,27 @@ impl<'a> Gen<'a> {
     fn op_source(&mut self) {
         // bring resources in: withdraw / recall, sometimes with a next-call assertion in front
         if !self.m.faucet_free_used && self.rng.below(100) < self.p.faucet_free_pct {
+            if self.p.name == "c38" && self.rng.chance(1, 2) {
+                // a deposit with statically known XRD content into an account, then the faucet's
+                // statically unknown return deposited into the SAME account (the analyser has to
+                // widen the bounds of the earlier, known deposit)
+                if let Some(xrd) = self.m.res.iter().position(|r| r.name == "XRD") {
+                    let (a, x) = (self.acct(), self.acct());
+                    let v = self.m.vaults[&(a, xrd)];
+                    let info = self.m.res[xrd].clone();
+                    let (total, free, _, _) = self.container_amounts(v);
+                    let amt = pick_amount(self.rng, &self.p, &info, &total, &free);
+                    self.push(Ins::Withdraw { acct: a, res: xrd, amount: amt });
+                    let kind = self.dep_kind();
+                    self.push(Ins::DepositWorktop { acct: x, kind });
+                    self.push(Ins::FaucetFree);
+                    if self.rng.bool() {
+                        let kind = self.dep_kind();
+                        self.push(Ins::DepositWorktop { acct: x, kind });
+                    }
+                    return;
+                }
+            }
             return self.push(Ins::FaucetFree);
         }
         let (a, r) = (self.acct(), self.res());
